@@ -106,10 +106,15 @@ func fieldName(t types.Type, idx int) string {
 	name := "struct"
 	if n != nil {
 		name = n.Obj().Name()
+		if n.Obj().Pkg() != nil {
+			if c, ok := canonTypes[n.Obj().Pkg().Path()+"."+name]; ok {
+				name = c
+			}
+		}
 	}
 	fname := st.Field(idx).Name()
 	if n != nil && n.Obj().Pkg() != nil {
-		if c, ok := canonFields[n.Obj().Pkg().Path()+"."+name+"."+fname]; ok {
+		if c, ok := canonFields[n.Obj().Pkg().Path()+"."+n.Obj().Name()+"."+fname]; ok {
 			fname = c
 		}
 	}
@@ -120,6 +125,10 @@ func fieldName(t types.Type, idx int) string {
 // the rule tables use (resolved at load time by position and type, see
 // fields.json written by -dump-roles).
 var canonFields = map[string]string{}
+
+// canonTypes maps "pkgpath.NewName" of a renamed struct type to the name the
+// rule tables use (resolved by structure: same package, same field types).
+var canonTypes = map[string]string{}
 
 // ---------------------------------------------------------------------------
 // iteration helpers
@@ -218,86 +227,328 @@ type Search struct {
 	AvoidEdges edgeSet
 }
 
+// staticCallers lists, for every module function, the static call sites that
+// call it (filled at load time).
+var staticCallers = map[*ssa.Function][]*ssa.Call{}
+
+// searchDepth bounds the virtual inlining of same-package helpers.
+const searchDepth = 3
+
+func pkgOfFunc(f *ssa.Function) *ssa.Package {
+	for x := f; x != nil; x = x.Parent() {
+		if x.Pkg != nil {
+			return x.Pkg
+		}
+	}
+	return nil
+}
+
+type searchNode struct {
+	b     *ssa.BasicBlock
+	idx   int
+	stack string // call-string key
+	calls []*ssa.Call
+	prev  *searchNode
+	// binds: for helper calls traversed on this path, the return statement the
+	// path left the helper through (only kept when that return yields a
+	// constant bool / nil result a caller may branch on)
+	binds map[*ssa.Call]*ssa.Return
+	bkey  string
+}
+
+// bindReturn records that call c returned through ret (or forgets an older
+// binding when ret carries no constant result).
+func bindReturn(binds map[*ssa.Call]*ssa.Return, c *ssa.Call, ret *ssa.Return) (map[*ssa.Call]*ssa.Return, string) {
+	useful := false
+	for i := range ret.Results {
+		if !branchedOn(c, i) {
+			continue
+		}
+		switch v := retVal(ret, i).(type) {
+		case *ssa.Const:
+			if v.IsNil() || (v.Value != nil && v.Value.Kind() == constant.Bool) {
+				useful = true
+			}
+		case *ssa.MakeInterface:
+			useful = true
+		}
+	}
+	if _, had := binds[c]; !useful && !had {
+		return binds, bindKey(binds)
+	}
+	out := map[*ssa.Call]*ssa.Return{}
+	for k, v := range binds {
+		out[k] = v
+	}
+	if useful {
+		out[c] = ret
+	} else {
+		delete(out, c)
+	}
+	return out, bindKey(out)
+}
+
+// branchedOn reports whether result i of call c is tested directly by a
+// branch of the calling function (`if ok`, `if !ok`, `if err != nil`).
+var branchedOnCache = map[*ssa.Call]map[int]bool{}
+
+func branchedOn(c *ssa.Call, i int) bool {
+	m, ok := branchedOnCache[c]
+	if !ok {
+		m = map[int]bool{}
+		branchedOnCache[c] = m
+		idxOf := func(v ssa.Value) int {
+			switch x := v.(type) {
+			case *ssa.Extract:
+				if x.Tuple == ssa.Value(c) {
+					return x.Index
+				}
+			case *ssa.Call:
+				if x == c {
+					return 0
+				}
+			}
+			return -1
+		}
+		for _, b := range c.Parent().Blocks {
+			ifi, ok := lastInstr(b).(*ssa.If)
+			if !ok {
+				continue
+			}
+			cond, _ := stripNot(ifi.Cond)
+			if k := idxOf(cond); k >= 0 {
+				m[k] = true
+				continue
+			}
+			if bo, ok := cond.(*ssa.BinOp); ok && (bo.Op == token.EQL || bo.Op == token.NEQ) {
+				if isNilConst(bo.Y) {
+					if k := idxOf(bo.X); k >= 0 {
+						m[k] = true
+					}
+				} else if isNilConst(bo.X) {
+					if k := idxOf(bo.Y); k >= 0 {
+						m[k] = true
+					}
+				}
+			}
+		}
+	}
+	return m[i]
+}
+
+func bindKey(binds map[*ssa.Call]*ssa.Return) string {
+	if len(binds) == 0 {
+		return ""
+	}
+	var parts []string
+	for c, r := range binds {
+		parts = append(parts, fmt.Sprintf("%p=%p", c, r))
+	}
+	sort.Strings(parts)
+	return strings.Join(parts, ",")
+}
+
+// boundCond evaluates a branch condition that tests a result of a helper call
+// whose return statement is known on this path: a constant boolean result, or
+// a comparison of an error/pointer result with nil.
+func boundCond(cond ssa.Value, binds map[*ssa.Call]*ssa.Return) (val, known bool) {
+	if len(binds) == 0 {
+		return false, false
+	}
+	result := func(v ssa.Value) ssa.Value {
+		switch x := v.(type) {
+		case *ssa.Extract:
+			if c, ok := x.Tuple.(*ssa.Call); ok {
+				if ret := binds[c]; ret != nil && x.Index < len(ret.Results) {
+					return retVal(ret, x.Index)
+				}
+			}
+		case *ssa.Call:
+			if ret := binds[x]; ret != nil && len(ret.Results) == 1 {
+				return retVal(ret, 0)
+			}
+		}
+		return nil
+	}
+	if rv := result(cond); rv != nil {
+		if b, isC := boolConst(rv); isC {
+			return b, true
+		}
+		return false, false
+	}
+	bo, ok := cond.(*ssa.BinOp)
+	if !ok || (bo.Op != token.EQL && bo.Op != token.NEQ) {
+		return false, false
+	}
+	var other ssa.Value
+	switch {
+	case isNilConst(bo.Y):
+		other = bo.X
+	case isNilConst(bo.X):
+		other = bo.Y
+	default:
+		return false, false
+	}
+	rv := result(other)
+	if rv == nil {
+		return false, false
+	}
+	isNil, decided := false, false
+	switch x := rv.(type) {
+	case *ssa.Const:
+		if x.IsNil() {
+			isNil, decided = true, true
+		}
+	case *ssa.MakeInterface:
+		isNil, decided = false, true
+	}
+	if !decided {
+		return false, false
+	}
+	if bo.Op == token.EQL {
+		return isNil, true
+	}
+	return !isNil, true
+}
+
 // Run returns whether the target is reachable and, if so, the block path.
+// Calls to helper functions of the same package (static callee with a body,
+// not recursive, depth <= searchDepth) are traversed as if inlined, so that a
+// block extracted into a helper does not hide the instructions a rule looks
+// for; the call instruction itself is offered to Target/Avoid first.
 func (s Search) Run() (bool, []*ssa.BasicBlock) {
 	if s.Fn == nil || len(s.Fn.Blocks) == 0 {
 		return false, nil
 	}
-	type start struct {
-		b   *ssa.BasicBlock
-		idx int
-	}
-	var st start
+	rootPkg := pkgOfFunc(s.Fn)
+	var start *searchNode
 	switch {
 	case s.FromEdge != nil:
-		st = start{s.FromEdge.From.Succs[s.FromEdge.Idx], 0}
+		start = &searchNode{b: s.FromEdge.From.Succs[s.FromEdge.Idx]}
 	case s.From != nil:
-		st = start{s.From.Block(), instrIndex(s.From) + 1}
+		start = &searchNode{b: s.From.Block(), idx: instrIndex(s.From) + 1}
 	default:
-		st = start{s.Fn.Blocks[0], 0}
+		start = &searchNode{b: s.Fn.Blocks[0]}
 	}
-	parent := map[*ssa.BasicBlock]*ssa.BasicBlock{}
-	visited := map[*ssa.BasicBlock]bool{}
-	// scan returns (found, blocked)
-	scan := func(b *ssa.BasicBlock, from int) (bool, bool) {
-		for i := from; i < len(b.Instrs); i++ {
-			in := b.Instrs[i]
-			if s.Target != nil && s.Target(in) {
-				return true, false
-			}
-			if s.Avoid != nil && s.Avoid(in) {
-				return false, true
-			}
-		}
-		return false, false
+	visited := map[string]bool{}
+	key := func(n *searchNode) string {
+		return fmt.Sprintf("%s|%p|%d|%s", n.stack, n.b, n.idx, n.bkey)
 	}
-	pathTo := func(b *ssa.BasicBlock) []*ssa.BasicBlock {
+	pathOf := func(n *searchNode) []*ssa.BasicBlock {
 		var p []*ssa.BasicBlock
-		seen := map[*ssa.BasicBlock]bool{}
-		for x := b; x != nil && !seen[x]; x = parent[x] {
-			seen[x] = true
-			p = append([]*ssa.BasicBlock{x}, p...)
-		}
-		if len(p) == 0 || p[0] != st.b {
-			p = append([]*ssa.BasicBlock{st.b}, p...)
+		for x := n; x != nil; x = x.prev {
+			if len(p) == 0 || p[0] != x.b {
+				p = append([]*ssa.BasicBlock{x.b}, p...)
+			}
+			if len(p) > 200 {
+				break
+			}
 		}
 		return p
 	}
-	queue := []*ssa.BasicBlock{}
-	found, blocked := scan(st.b, st.idx)
-	if found {
-		return true, []*ssa.BasicBlock{st.b}
-	}
-	if st.idx == 0 {
-		visited[st.b] = true
-	}
-	if !blocked {
-		for i, succ := range st.b.Succs {
-			if s.AvoidEdges[Edge{st.b, i}] || visited[succ] {
-				continue
-			}
-			visited[succ] = true
-			parent[succ] = st.b
-			queue = append(queue, succ)
+	queue := []*searchNode{start}
+	push := func(n *searchNode) {
+		k := key(n)
+		if visited[k] {
+			return
 		}
+		visited[k] = true
+		queue = append(queue, n)
+	}
+	visited[key(start)] = true
+	inlinable := func(c *ssa.Call, n *searchNode) *ssa.Function {
+		f := c.Call.StaticCallee()
+		if f == nil || f.Blocks == nil || rootPkg == nil || pkgOfFunc(f) != rootPkg || len(n.calls) >= searchDepth {
+			return nil
+		}
+		if f == s.Fn {
+			return nil
+		}
+		for _, k := range n.calls {
+			if k.Call.StaticCallee() == f {
+				return nil
+			}
+		}
+		return f
 	}
 	for len(queue) > 0 {
-		b := queue[0]
+		n := queue[0]
 		queue = queue[1:]
-		found, blocked := scan(b, 0)
-		if found {
-			return true, pathTo(b)
+		b := n.b
+		blocked := false
+		transferred := false
+		for i := n.idx; i < len(b.Instrs); i++ {
+			in := b.Instrs[i]
+			// a return of an inlined helper is internal: not offered to the predicates
+			_, isRet := in.(*ssa.Return)
+			internalRet := isRet && (len(n.calls) > 0 || b.Parent() != s.Fn)
+			if !internalRet {
+				if s.Target != nil && s.Target(in) {
+					return true, pathOf(n)
+				}
+				if s.Avoid != nil && s.Avoid(in) {
+					blocked = true
+					break
+				}
+			}
+			if c, ok := in.(*ssa.Call); ok {
+				if f := inlinable(c, n); f != nil {
+					calls := append(append([]*ssa.Call{}, n.calls...), c)
+					push(&searchNode{b: f.Blocks[0], stack: fmt.Sprintf("%s>%p", n.stack, c), calls: calls, prev: n, binds: n.binds, bkey: n.bkey})
+					transferred = true
+					break
+				}
+			}
+			if _, ok := in.(*ssa.Return); ok {
+				if len(n.calls) > 0 {
+					c := n.calls[len(n.calls)-1]
+					rest := n.calls[:len(n.calls)-1]
+					st := ""
+					for _, k := range rest {
+						st = fmt.Sprintf("%s>%p", st, k)
+					}
+					nb, nk := bindReturn(n.binds, c, in.(*ssa.Return))
+					push(&searchNode{b: c.Block(), idx: instrIndex(c) + 1, stack: st, calls: rest, prev: n, binds: nb, bkey: nk})
+					transferred = true
+				} else if b.Parent() != s.Fn {
+					// started inside a helper: return to every same-package caller
+					for _, c := range staticCallers[b.Parent()] {
+						if pkgOfFunc(c.Parent()) == rootPkg {
+							nb, nk := bindReturn(n.binds, c, in.(*ssa.Return))
+							push(&searchNode{b: c.Block(), idx: instrIndex(c) + 1, prev: n, binds: nb, bkey: nk})
+						}
+					}
+					transferred = true
+				}
+				break
+			}
 		}
-		if blocked {
+		if blocked || transferred {
 			continue
 		}
+		only := -1
+		if ifi, ok := lastInstr(b).(*ssa.If); ok && len(n.binds) > 0 {
+			cond, neg := stripNot(ifi.Cond)
+			if v, known := boundCond(cond, n.binds); known {
+				if v != neg {
+					only = 0
+				} else {
+					only = 1
+				}
+			}
+		}
 		for i, succ := range b.Succs {
-			if s.AvoidEdges[Edge{b, i}] || visited[succ] {
+			if s.AvoidEdges[Edge{b, i}] || (only >= 0 && i != only) {
 				continue
 			}
-			visited[succ] = true
-			parent[succ] = b
-			queue = append(queue, succ)
+			// a binding lives until the first branch after the helper returned
+			// (the `if !ok` / `if err != nil` right behind the call): enough for
+			// the idiom, and it keeps the search space linear
+			if len(b.Succs) > 1 {
+				push(&searchNode{b: succ, stack: n.stack, calls: n.calls, prev: n})
+			} else {
+				push(&searchNode{b: succ, stack: n.stack, calls: n.calls, prev: n, binds: n.binds, bkey: n.bkey})
+			}
 		}
 	}
 	return false, nil
